@@ -46,7 +46,7 @@ var interpPkgs = map[string]bool{
 	"github.com/boljen/go-bitmap": true, "github.com/dchest/siphash": true, "internal/filepathlite": true,
 	"io/fs": true, "internal/oserror": true, "time": true, "io/ioutil": true, "os": true, "syscall": true,
 	"internal/byteorder": true, "net/http": true, "net/url": true, "net/textproto": true, "maps": true, "iter": true,
-	"container/list": true, "github.com/folbricht/tempfile": true, "github.com/hanwen/go-fuse/v2/fuse": true, "hash/crc32": false, "archive/tar": true, "internal/godebug": false,
+	"container/list": true, "github.com/folbricht/tempfile": true, "github.com/hanwen/go-fuse/v2/fuse": true, "vendor/golang.org/x/net/http/httpguts": true, "vendor/golang.org/x/net/idna": true, "net/http/internal/ascii": true, "net/http/internal": true, "mime": true, "net": true, "net/netip": true, "vendor/golang.org/x/net/http/httpproxy": true, "hash/crc32": false, "archive/tar": true, "internal/godebug": false,
 }
 
 // Packages whose init functions are run.
@@ -57,6 +57,7 @@ var initPkgs = map[string]bool{
 	"unicode/utf8": true, "strconv": true, "context": true, "golang.org/x/sync/errgroup": true, "sync": true, "sync/atomic": true,
 	"github.com/boljen/go-bitmap": true, "github.com/dchest/siphash": true, "io/fs": true, "internal/oserror": true,
 	"io/ioutil": true, "os": true, "syscall": true, "time": true, "net/http": false, "archive/tar": true,
+	"vendor/golang.org/x/net/http/httpguts": true, "net/url": true, "net/textproto": true, "net/http/internal/ascii": true,
 }
 
 // Packages whose functions return a zero value without being executed
@@ -296,6 +297,7 @@ func init() {
 		reg(p+"vUnwind", func(i *interpreter, fr *frame, fn *ssa.Function, a []value) value { i.ps.unwind = a[0].(int); return nil })
 		reg(p+"vConcCap", func(i *interpreter, fr *frame, fn *ssa.Function, a []value) value { i.ps.concCap = a[0].(int); return nil })
 		reg(p+"vPreempt", func(i *interpreter, fr *frame, fn *ssa.Function, a []value) value { i.ps.preempt = a[0].(int); return nil })
+		reg(p+"vSchedFixed", func(i *interpreter, fr *frame, fn *ssa.Function, a []value) value { i.ps.schedFixed = a[0].(bool); return nil })
 		reg(p+"vMapOrders", func(i *interpreter, fr *frame, fn *ssa.Function, a []value) value { i.ps.mapOrders = a[0].(bool); return nil })
 		reg(p+"vExpectPanic", func(i *interpreter, fr *frame, fn *ssa.Function, a []value) value { i.ps.expectPanic = a[0].(bool); return nil })
 		reg(p+"vExpectDeadlock", func(i *interpreter, fr *frame, fn *ssa.Function, a []value) value { i.ps.expectDeadlock = a[0].(bool); return nil })
@@ -977,4 +979,100 @@ func init() {
 	}
 	reg("sort.Slice", sortSlice)
 	reg("sort.SliceStable", sortSlice)
+}
+
+// ------------------------------------------------------------------ zstd model
+//
+// klauspost's encoder/decoder cannot be encoded.  Model: a frame is the zstd
+// magic followed by the payload; decoding anything without the magic fails;
+// decoding a frame with symbolic payload bytes may also fail (corrupt frame).
+
+var zstdMagic = []byte{0x28, 0xB5, 0x2F, 0xFD}
+
+func init() {
+	reg("(*github.com/klauspost/compress/zstd.Encoder).EncodeAll", func(i *interpreter, fr *frame, fn *ssa.Function, a []value) value {
+		src := a[1].([]value)
+		dst, _ := a[2].([]value)
+		for _, b := range zstdMagic {
+			dst = append(dst, b)
+		}
+		i.ps.zframes = append(i.ps.zframes, append([]value(nil), src...))
+		return append(dst, src...)
+	})
+	reg("(*github.com/klauspost/compress/zstd.Decoder).DecodeAll", func(i *interpreter, fr *frame, fn *ssa.Function, a []value) value {
+		src := a[1].([]value)
+		dst, _ := a[2].([]value)
+		bad := func() value { return tuple{[]value(nil), i.newError(fr, "zstd: invalid input (model)")} }
+		if len(src) < len(zstdMagic) {
+			return bad()
+		}
+		c := i.ps.ctx
+		ok := c.True
+		for k, m := range zstdMagic {
+			ok = c.And(ok, c.Eq(i.term(src[k]), c.Const(uint64(m), 8)))
+		}
+		if !i.branch(fr, ok, "zstd-magic") {
+			return bad()
+		}
+		payload := src[len(zstdMagic):]
+		// a frame this process produced itself is valid
+		for _, f := range i.ps.zframes {
+			if len(f) != len(payload) {
+				continue
+			}
+			same := true
+			for k := range f {
+				if f[k] != payload[k] {
+					same = false
+					break
+				}
+			}
+			if same {
+				return tuple{append(dst, payload...), iface{}}
+			}
+		}
+		for _, b := range payload {
+			if isSym(b) {
+				// a frame with attacker-controlled content may be rejected by the real decoder
+				if i.choose(2, "zstd-corrupt") == 1 {
+					return bad()
+				}
+				break
+			}
+		}
+		return tuple{append(dst, payload...), iface{}}
+	})
+}
+
+// ------------------------------------------------------------------ net/http client boundary
+//
+// (*http.Client).Do hands the request straight to the client's Transport
+// (a harness-defined RoundTripper); redirects, cookies and timeouts of
+// net/http are outside the encoding.
+
+func init() {
+	do := func(i *interpreter, fr *frame, fn *ssa.Function, a []value) value {
+		cl := a[0].(*value)
+		if cl == nil {
+			panic(runtimeErr("invalid memory address or nil pointer dereference"))
+		}
+		T := i.namedType("net/http", "Client")
+		tr := (*cl).(structure)[fieldIndex(T, "Transport")].(iface)
+		if tr.t == nil {
+			i.abort(outUnsupported, "http.Client.Do without a harness transport (real network is not modelled)")
+		}
+		m := i.findMethod(tr.t, "RoundTrip")
+		if m == nil {
+			i.abort(outUnsupported, "transport without RoundTrip")
+		}
+		if len(i.ps.sched.gs) > 1 {
+			i.ps.sched.yield(fr)
+		}
+		return callIn(i, fr, fr.g, token.NoPos, m, []value{tr.v, a[1]})
+	}
+	reg("(*net/http.Client).Do", do)
+	reg("(*net/http.Client).do", do)
+	reg("net/http.ProxyFromEnvironment", func(i *interpreter, fr *frame, fn *ssa.Function, a []value) value {
+		return tuple{(*value)(nil), iface{}}
+	})
 }
